@@ -27,6 +27,13 @@ thread_local! {
     static WORKER_ORDINAL: Atomic<ThreadId> = const { Atomic::new(ThreadId::MAX) };
 }
 
+/// Make the calling (simulated) thread look like GC worker `ordinal` to code that keys
+/// thread-local state on `current_worker_ordinal` (component simulations).
+#[cfg(mmtk_verif)]
+pub fn verif_set_current_worker_ordinal(ordinal: ThreadId) {
+    WORKER_ORDINAL.with(|x| x.store(ordinal, Ordering::SeqCst));
+}
+
 /// Get current worker ordinal. Return `None` if the current thread is not a worker.
 pub fn current_worker_ordinal() -> ThreadId {
     let ordinal = WORKER_ORDINAL.with(|x| x.load(Ordering::Relaxed));
